@@ -276,6 +276,17 @@ fn common_members(a: &Iv, b: &Iv, cap: u128) -> Option<Vec<i128>> {
     if b.stride == 0 {
         return Some(if a.contains(b.s as i128) { vec![b.s as i128] } else { vec![] });
     }
+    // few members on one side: enumerate them
+    for (small, other) in [(a, b), (b, a)] {
+        if let Some(all) = small.members_all(1024) {
+            let mut hits: Vec<i128> = all.iter().map(|x| ops::to_signed(*x, small.w)).filter(|x| other.contains(*x)).collect();
+            if hits.len() > 6 {
+                let n = hits.len();
+                hits = vec![hits[0], hits[1], hits[2], hits[n - 2], hits[n - 1]];
+            }
+            return Some(hits);
+        }
+    }
     // walk the members of the interval with the larger stride, test them in the other one
     let (walk, test) = if a.stride >= b.stride { (a, b) } else { (b, a) };
     let Some(first) = walk.member_ge(lo) else { return Some(vec![]) };
